@@ -258,8 +258,30 @@ func buildWith(regs []opReg, m Mode) (*parser.Builder, error) {
 			delete(types, r.ch) // the character itself is not an operator for the lexer
 		}
 	}
+	retype := map[string]token.Type{} // via = "illegal": the plugin lets the lexer produce its token and re-types it
+	for _, r := range regs {
+		if r.via == "illegal" && r.builtin == 0 && r.word == "" {
+			retype[string(r.ch)] = types[r.ch]
+			delete(types, r.ch)
+		}
+	}
+	if len(retype) > 0 {
+		lb.UseTokenInterceptor(func(l *lexer.Lexer, next func() token.Token) token.Token {
+			tok := next()
+			if tok.Type == token.ILLEGAL {
+				if tt, ok := retype[tok.Literal]; ok {
+					tok.Type = tt
+				}
+			}
+			return tok
+		})
+	}
+	lexTypes := map[byte]token.Type{} // characters the plugin's token interceptor turns into operator tokens itself
+	for ch, tt := range types {
+		lexTypes[ch] = tt
+	}
 	lb.UseTokenInterceptor(func(l *lexer.Lexer, next func() token.Token) token.Token {
-		if tt, ok := types[l.CurrentChar]; ok {
+		if tt, ok := lexTypes[l.CurrentChar]; ok {
 			if bare[l.CurrentChar] {
 				// a token built by hand, type and text only (no positions): still that operator
 				tok := token.Token{Type: tt, Literal: string(l.CurrentChar)}
@@ -276,6 +298,9 @@ func buildWith(regs []opReg, m Mode) (*parser.Builder, error) {
 		if r.builtin != 0 {
 			types[r.ch] = r.builtin
 		}
+	}
+	for lit, tt := range retype {
+		types[lit[0]] = tt
 	}
 	pb := parser.NewBuilder(lb)
 	if m.Tolerant {
@@ -549,8 +574,12 @@ func runC05PrePost(t *fw.T) {
 	dot := func(o *cnode) *cnode { return &cnode{kind: "dot", name: "p", kids: []*cnode{o}} }
 	trees = append(trees, call(pre(a), b), pre(call(a, b)), call(pst(a), b), pst(call(a, b)), dot(pre(a)), pre(dot(a)), dot(pst(a)), pst(dot(a)),
 		&cnode{kind: "asg", op: "=", kids: []*cnode{a, pre(b)}}, &cnode{kind: "asg", op: "=", kids: []*cnode{a, pst(b)}})
+	// ... and once more with a plugin that obtains its operator tokens by re-typing the one-character tokens the lexer
+	// itself produces for characters it does not know (`tok := next(); if tok is ILLEGAL "~" ...`)
+	regs2 := []opReg{{ch: '~', role: "prefix", via: "illegal"}, {ch: '?', role: "postfix", via: "illegal"}}
 	for _, tr := range trees {
 		checkCustomTree(t, regs, tr, "prefix-postfix-binding", 0)
+		checkCustomTree(t, regs2, tr, "prefix-postfix-binding", 0)
 		t.Distinct("prepost " + tr.S())
 	}
 }
@@ -652,6 +681,8 @@ func runC05Random(t *fw.T) {
 		}
 		if rg.word == "" && r.IntN(4) == 0 {
 			rg.bare = true
+		} else if rg.word == "" && r.IntN(4) == 0 {
+			rg.via = "illegal"
 		}
 		regs = append(regs, rg)
 		if role == "infix" && rg.level < minL {
